@@ -120,6 +120,9 @@ fn run_check(property: &str, tier: &str) -> i32 {
     start_watchdog(&ex, property.to_string());
     let mut scs = pr.scenarios;
     let mut summary = pr.summary;
+    #[allow(unused_mut)] let mut units = pr.units;
+    // diagnostic aid (never set by the registered commands): restrict the run to the scenarios whose name contains a substring
+    if let Ok(only) = std::env::var("VERIF_ONLY") { scs.retain(|s| s.name.contains(&only)); units.clear(); eprintln!("VERIF_ONLY={}: {} scenarios kept, sweep units dropped - a diagnostic run, not a check", only, scs.len()); summary.exhaustive = false; }
     // VERIF_SEED only permutes the order in which scenarios are visited; enumeration is complete either way
     if seed != 0 && scs.len() > 1 {
         let mut x = seed | 1;
@@ -136,8 +139,8 @@ fn run_check(property: &str, tier: &str) -> i32 {
     }
     println!("[{}] {} scenarios, {} threads, tier {}", property, scs.len(), ctx.threads, tier);
     ex.explore_all(&scs);
-    let n_units = pr.units.len();
-    if n_units > 0 { println!("[{}] {} sweep units", property, n_units); sweep::run_units(&ex, pr.units); }
+    let n_units = units.len();
+    if n_units > 0 { println!("[{}] {} sweep units", property, n_units); sweep::run_units(&ex, units); }
     summary.bounds["scenarios_total"] = serde_json::json!(scs.len());
     finish(&ctx, &ex, summary)
 }
